@@ -178,7 +178,7 @@ def _mode_claims(ctx, F):
                 ctx.bad('TYPESTATE-C17c', f, 'FileLock.mode is set to %s before (or without) a successful locking call: if the lock attempt fails the guard still claims the lock, and '
                         'upgrade_to_exclusive / ensure_writable will treat the handle as writable without holding any OS lock' % ('/'.join(sorted(modes)) or 'a lock mode'),
                         line=st['line'], sink='FileLock.mode', detail='mode-claimed-before-lock')
-    ctx.floor('TYPESTATE-C17c', n, 2, 'stores of a lock mode inside FileLock')
+    ctx.floor('TYPESTATE-C17c', n, 1, 'stores of a lock mode inside FileLock')   # 2 on the pinned tree; a shared relock helper legitimately merges them
 
 
 def run(ctx):
